@@ -9,7 +9,8 @@ GEN     Gen_CompressLen: the C01 vector set (incl. mode "compress": shared suffi
         uncompressible name fields, owner names pushed across offset 16384) plus mode "straddle" (for EVERY name position
         of every type -- NSEC next, RRSIG signer, SOA mname/rname, MX, SRV, HIP servers, gateway hosts, ... -- a record
         padded so that the RDATA name starts at 16384-k, k = -3..20, followed by names that could only compress against
-        it), each vector with LenImpl / PackImpl of the CompressLen machines  ->  harness `wire len`, Compress false
+        it) and mode "sizes" (records whose stored length field -- SaltLength, HitLength, MACSize, ... -- disagrees with
+        the data: packable as given, Len() must still cover them), each vector with LenImpl / PackImpl of the CompressLen machines  ->  harness `wire len`, Compress false
         and true: Len() >= len(Pack()), equality when the spec flags the vector plain, Len(rr) against the spec's
         record length, Pack never ErrBuf, PackBuffer with len(buf) in {0, L, L+1, L+2, 2L} (L = spec's LenMsg):
         no error, same octets, in place when len(buf) > max(L, library's predicted uncompressed length) -- AMBIG.
@@ -48,21 +49,24 @@ def run(ctx):
         c01.gen_jobs(ctx, binp, lay, "len", [
             ("types", 4, s4), ("rrhdr", 1, [0]), ("opts", 1, [0]), ("svcb", 1, [0]), ("gateway", 1, [0]),
             ("nodata", 1, [0]), ("unknown", 1, [0]), ("rcode", 1, [0]), ("sections", 1, [0]),
-            ("big", 1, [0]), ("compress", 1, [0]), ("orders", 1, [0]), ("empty", 1, [0]), ("straddle", 2, [0, 1]), ("cross", 4, [ctx.seed % 4])], tier=0, module="Gen_CompressLen")
+            ("big", 1, [0]), ("compress", 1, [0]), ("orders", 1, [0]), ("empty", 1, [0]), ("sizes", 1, [0]), ("straddle", 2, [0, 1]), ("cross", 4, [ctx.seed % 4])], tier=0, module="Gen_CompressLen")
         c01.tv(ctx, binp, lay, 1500, 4, sub="lenrec", module="Trace_CompressLen", prefix="len/trace-")
     else:
         mc(ctx, 1, 5)
         c01.gen_jobs(ctx, binp, lay, "len", [
             ("types", 4, [0, 1, 2, 3]), ("cross", 4, [0, 1, 2, 3]), ("compress", 4, [0, 1, 2, 3]), ("rcode", 4, [0, 1, 2, 3]),
             ("rrhdr", 1, [0]), ("opts", 1, [0]), ("svcb", 1, [0]), ("gateway", 1, [0]), ("nodata", 1, [0]),
-            ("unknown", 1, [0]), ("sections", 1, [0]), ("big", 1, [0]), ("orders", 1, [0]), ("empty", 1, [0]), ("straddle", 8, list(range(8))), ("hdr", 16, [ctx.seed % 16])], tier=1, module="Gen_CompressLen")
+            ("unknown", 1, [0]), ("sections", 1, [0]), ("big", 1, [0]), ("orders", 1, [0]), ("empty", 1, [0]), ("sizes", 1, [0]), ("straddle", 8, list(range(8))), ("hdr", 16, [ctx.seed % 16])], tier=1, module="Gen_CompressLen")
         c01.tv(ctx, binp, lay, 6000, 16, sub="lenrec", module="Trace_CompressLen", prefix="len/trace-")
-    known = vp.load_known()
-    if ctx.notes.get("model_mismatch_total") and all((ctx.id, c["key"]) in known for c in ctx.cands):
-        # no clause of the property is violated, but Len() / len(Pack()) differ from LenImpl / PackImpl where those are exact:
-        # the CompressLen machines (and the MC theorem about them) do not describe this code -- not a verdict
-        raise vp.Infra("CompressLen!LenImpl/PackImpl differ from the observed Len()/len(Pack()) on %d vectors (e.g. %s)"
-                       % (ctx.notes["model_mismatch_total"], json.dumps(ctx.notes.get("model_mismatch_sample"))))
+    if ctx.notes.get("model_mismatch_total"):
+        # Len() / len(Pack()) differ from LenImpl / PackImpl where those are exact although no clause of the property is violated
+        # on those cases: the statement does not demand the equality, so this is neither a violation nor a reason to give no
+        # verdict; it is recorded: MC_CompressLen's theorem then speaks about machines that are not this code's.
+        vp.log("NOTE: CompressLen!LenImpl/PackImpl differ from the observed Len()/len(Pack()) on %d cases (e.g. %s); "
+               "the clauses of C08 are judged on the observations alone" % (ctx.notes["model_mismatch_total"],
+                                                                           json.dumps(ctx.notes.get("model_mismatch_sample"))))
+        ctx.assumptions.append("the CompressLen machines did NOT match the observed lengths on %d cases of this run: the model-checked "
+                               "theorem (LenImpl >= PackImpl) does not transfer to this code" % ctx.notes["model_mismatch_total"])
     ctx.assumptions += [
         "messages are well-formed (WireRR!WFMsg) and can be packed; records whose octets the packer gets wrong are C01's findings "
         "(the length clauses are still applied to what was packed)",
